@@ -1,1 +1,38 @@
-From VP Require Import Store.Tenant Store.TenantRun Store.TenantProps.
+(* Pins the C22 statements and prints what they depend on. Compiled on every run. *)
+From Coq Require Import Permutation.
+From VP Require Import Base.Tactics Store.Tenant Store.TenantRun Store.TenantProofs Store.TenantProps.
+Open Scope N_scope.
+
+Check (C22_recover : forall ops budget, w_fresh (run_ops ops budget) = true ->
+  let w := run_ops ops budget in
+  if w_frozen w
+  then Permutation (recover (w_store w)) (w_acked w) \/ Permutation (recover (w_store w)) (w_mem w)
+  else Permutation (recover (w_store w)) (w_acked w)).
+Check (C22_restart_keeps_state : forall ops budget,
+  w_fresh (run_ops ops budget) = true -> w_frozen (run_ops ops budget) = false ->
+  Permutation (w_mem (run_ops (ops ++ [ORestart]) budget)) (w_mem (run_ops ops budget))).
+(* the runner the statements are about *)
+Check (eq_refl : step_op = fun w o =>
+  if w_frozen w then w
+  else match o with
+  | ORestart =>
+      let m := recover (w_store w) in
+      mkW (w_store w) m m (w_budget w) false (w_trace w ++ [(true, O, false)]) (w_fresh w)
+  | _ =>
+      let fr_ok := match o with OCreate id _ _ => fresh_id (w_store w) (w_mem w) id | _ => true end in
+      match op_effect (w_mem w) o with
+      | None => mkW (w_store w) (w_mem w) (w_acked w) (w_budget w) false (w_trace w ++ [(false, O, false)]) (w_fresh w)
+      | Some (m', ws) =>
+          let '(s', b', fr, n) := do_writes (w_store w) ws (w_budget w) in
+          mkW s' m' (if fr then w_acked w else m') b' fr (w_trace w ++ [(true, n, fr)]) (w_fresh w && fr_ok)
+      end
+  end).
+Check (eq_refl : run_ops = fun ops budget => fold_left step_op ops (mkW [] [] [] budget false [] true)).
+Check (eq_refl : recover = fun s =>
+  match kv_get s KIndex with
+  | Some (VIndex ids) => flat_map (fun id => match kv_get s (KTenant id) with Some (VSnap t) => [t] | _ => [] end) ids
+  | _ => []
+  end).
+
+Print Assumptions C22_recover.
+Print Assumptions C22_restart_keeps_state.
